@@ -9,8 +9,8 @@ from bsv.explore import genproto as G
 ID = "C21"
 LEVEL = "model_checking"
 ENGINE = "G"
-# (host nodes, script depth)
-BOUNDS = {"quick": (4, 4), "thorough": (5, 6)}
+# layers (host nodes, exactly?, script depth); the layers of a tier are disjoint in the host program
+BOUNDS = {"quick": [(4, False, 4)], "thorough": [(4, False, 6), (5, True, 5)]}
 HOST_LEAVES = (("Y",), ("Raise", 2), ("Reraise",), ("Ret", 7))
 HEADS = (None, "m", "hm", "h", "clone", "raise0", "h-raise", "hm-log")
 TAILS = (None, "t", "tt", "raise0", "t-raise")
@@ -18,9 +18,9 @@ ACTIONS = (G.SEND_NONE, G.SEND_1, G.THROW_E1, G.THROW_STOP)
 PROC_CALL_CAP = 40
 RULE = (
     "G: host programs of the grammar {Y fresh Msg, YF, Seq, Try(except Exception/else/finally), Raise, Reraise, Return} with <= N nodes "
-    "(N=4 quick, 5 thorough) x processors keyed on one host message tag (each yield site, or every site) returning head in {None, [m], "
+    "x processors keyed on one host message tag (each yield site, or every site) returning head in {None, [m], "
     "[h,m], [h] replacement, [fresh copy of m], raises at once, [h] then raises, [h,m] logging its responses} and tail in {None, [t], "
-    "[t1,t2], raises at once, [t] then raises} x every adaptive driver script of depth <= D (D=4 quick, 6 thorough) over {send(None), "
+    "[t1,t2], raises at once, [t] then raises} x every adaptive driver script of depth <= D (quick: N<=4,D=4; thorough: N<=4,D=6 plus N=5,D=5) over {send(None), "
     "send(1), throw(E1), throw(RequestStop)}; oracle: a reference interpreter of the stated contract (host receives the response to "
     "head's last message; tail runs right after head, responses swallowed; an exception while head/tail run reaches the host at its "
     "original yield; the processor is called on host messages only) - compared on the driver trace + host/head logs (rule trace) and "
@@ -34,16 +34,21 @@ ASSUMPTIONS = [
 
 
 def describe(tier):
-    n, d = BOUNDS[tier]
-    return {"bounds": {"program_size": n, "depth": d, "hosts": len(_hosts(n)), "heads": [str(h) for h in HEADS], "tails": [str(x) for x in TAILS]}}
+    return {
+        "bounds": {
+            "layers": [{"program_size": ("=" if ex else "<=") + str(n), "depth": d, "hosts": len(_hosts(n, ex))} for n, ex, d in BOUNDS[tier]],
+            "heads": [str(h) for h in HEADS],
+            "tails": [str(x) for x in TAILS],
+        }
+    }
 
 
 def worker_init():
     G.quiet()
 
 
-def _hosts(n):
-    return [p for p in G.programs(n, leaves=HOST_LEAVES, catch=("E",)) if G.has(p, "Y")]
+def _hosts(n, exact=False):
+    return [p for p in G.programs(n, leaves=HOST_LEAVES, catch=("E",), exact=exact) if G.has(p, "Y")]
 
 
 def _ntags(prog):
@@ -53,10 +58,12 @@ def _ntags(prog):
 def items(tier, seed):
     import bluesky.preprocessors  # noqa: F401
 
-    n, d = BOUNDS[tier]
-    hosts = _hosts(n)
-    size = 4 if tier == "quick" else 6
-    return [{"tier": tier, "lo": lo, "hi": min(len(hosts), lo + size)} for lo in range(0, len(hosts), size)]
+    out = []
+    for li, (n, ex, _d) in enumerate(BOUNDS[tier]):
+        total = len(_hosts(n, ex))
+        size = 4 if tier == "quick" else 6
+        out.extend({"tier": tier, "layer": li, "lo": lo, "hi": min(total, lo + size)} for lo in range(0, total, size))
+    return out
 
 
 class ProcessorLoop(Exception):
@@ -244,8 +251,8 @@ def _configs(prog):
 
 
 def run_item(item):
-    n, d = BOUNDS[item["tier"]]
-    hosts = _hosts(n)
+    n, ex, d = BOUNDS[item["tier"]][item["layer"]]
+    hosts = _hosts(n, ex)
     t = G.Tally()
     for prog in hosts[item["lo"] : item["hi"]]:
         for target, hk, tk in _configs(prog):
